@@ -335,3 +335,19 @@ Qed.
 Example d_rejected_eval :
   decode d_schema 0 (enc_fields d_schema [VInt 1] [ {| ftag := 0; freq := true; fty := TI32; fdef := None |} ] ++ d_bytes1) = DErr.
 Proof. vm_compute. reflexivity. Qed.
+
+(* ---------- the table of admissible wire types is the model's acceptance set ---------- *)
+(* adm (RoundTrip.v) is written by hand; here it is characterised by the decoder model itself: for every non-struct IDL
+   type shape and every one of the 16 wire type codes, a field of that wire type under the member's tag followed by
+   eight zero bytes (enough for every fixed-width body; a zero length / count for strings, lists, maps, SimpleLists) is
+   refused if and only if adm says the wire type is not admissible. Together with inadmissible_member (adm false =>
+   refused whatever follows) the table cannot drift from the readers of the model - which are tied to the Go readers by
+   the translated-code equivalences (Xlate/ReaderEquiv.v) and the correspondence. *)
+Definition adm_probe (t : ty) (wt : N) : bool :=
+  match dec_var 6 [] 5 true t (VInt 0) (head wt 5 ++ [0; 0; 0; 0; 0; 0; 0; 0]) with DErr => false | _ => true end.
+Definition adm_types : list ty :=
+  [TBool; TI8; TU8; TI16; TU16; TI32; TU32; TI64; TF32; TF64; TStr; TEnum;
+   TVec TI8; TVec TU8; TVec TI32; TVec TStr; TMap TStr TI32; TArr 2 TI32].
+Example adm_is_acceptance :
+  forallb (fun t => forallb (fun wt => Bool.eqb (adm_probe t wt) (adm t wt && negb (wt =? tSE))) (map N.of_nat (seq 0 16))) adm_types = true.
+Proof. vm_compute. reflexivity. Qed.
